@@ -127,8 +127,8 @@ func levelRangeOf(r mRange) log.LevelRange {
 }
 
 func levelByCode(c int32) log.Level {
-	for n, code := range levelCodes {
-		if code == c {
+	for _, n := range levelNames { // sorted: the choice among names sharing a code is fixed
+		if levelCodes[n] == c {
 			return levelByName(n)
 		}
 	}
